@@ -155,6 +155,8 @@ def run(loader, R, tier):
                        for c in walk(v.get("i") or {})
                        if c.get("k") in ("call", "mcall"))}
 
+        alias = {}   # local initialised from get<i>(tup) -> {i}
+
         def comps(e):
             out = set()
             for c in walk(e):
@@ -164,7 +166,16 @@ def run(loader, R, tier):
                     s = show(c)
                     out.add(0 if s.startswith("get<0") else
                             1 if s.startswith("get<1") else s)
+                elif c.get("k") == "ref" and c.get("n") in alias:
+                    out |= alias[c["n"]]
             return out
+        for d in walk(f["body"]):
+            if d.get("k") == "decl":
+                for v in d.get("v", ()):
+                    if v["n"] not in tups and v.get("i"):
+                        cs_ = comps(v["i"])
+                        if cs_:
+                            alias[v["n"]] = cs_
 
         def cb6(n, guards, line, f=f):
             nonlocal n6
